@@ -305,7 +305,55 @@ pub fn value_grid(rng: &mut Rng, thorough: bool, f: &mut dyn FnMut(bool, u128)) 
     }
 }
 
+/// 1407: every typed reader on a value whose header announces more content than the input holds
+/// (the input ends inside the value, alone or inside over-announced SEQUENCEs): always an error.
+fn truncated_case(em: &mut Emitter, which: u8, mode: u8, full: &[u8], cut: usize, wrap: u8) {
+    use bcder::{BitString, Integer, OctetString, Oid, Unsigned, Utf8String};
+    let mut data = full[..cut].to_vec();
+    // wrap in `wrap` definite SEQUENCEs whose lengths are those of the FULL value (over-announced)
+    let mut fl = full.len();
+    for _ in 0..wrap { let mut v = vec![0x30u8]; v.extend(crate::gen::ref_len_octets(fl)); fl += v.len(); v.extend(&data); data = v; }
+    em.case(1407, &[num_arg(which), num_arg(mode), bytes_arg(&data), num_arg(wrap)], || {
+        fn leaf<S: bcder::decode::Source>(which: u8, c: &mut Constructed<S>) -> Result<(), bcder::decode::DecodeError<S::Error>> {
+            match which {
+                0 => c.take_bool().map(|_| ()), 1 => c.take_null(), 2 => c.take_u8().map(|_| ()), 3 => c.take_u16().map(|_| ()),
+                4 => c.take_u32().map(|_| ()), 5 => c.take_u64().map(|_| ()),
+                6 => c.take_primitive_if(Tag::INTEGER, |p| p.to_i8()).map(|_| ()), 7 => c.take_primitive_if(Tag::INTEGER, |p| p.to_i16()).map(|_| ()),
+                8 => c.take_primitive_if(Tag::INTEGER, |p| p.to_i32()).map(|_| ()), 9 => c.take_primitive_if(Tag::INTEGER, |p| p.to_i64()).map(|_| ()),
+                10 => c.take_primitive_if(Tag::INTEGER, |p| p.to_i128()).map(|_| ()), 11 => c.take_primitive_if(Tag::INTEGER, |p| p.to_u128()).map(|_| ()),
+                12 => Integer::take_from(c).map(|_| ()), 13 => Unsigned::take_from(c).map(|_| ()), 14 => Oid::take_from(c).map(|_| ()),
+                15 => Oid::skip_in(c), 16 => BitString::take_from(c).map(|_| ()), 17 => BitString::skip_in(c),
+                18 => OctetString::take_from(c).map(|_| ()), 19 => Utf8String::take_from(c).map(|_| ()),
+                20 => c.take_opt_bool().map(|_| ()), 21 => c.take_opt_null().map(|_| ()), 22 => c.take_opt_u8().map(|_| ()),
+                23 => c.skip_u8_if(5), 24 => c.take_primitive(|_, p| p.skip_all()), 25 => c.take_primitive(|_, p| p.take_all().map(|_| ())),
+                26 => c.take_primitive(|_, p| p.slice_all().map(|_| ())), _ => c.take_primitive(|_, p| { use bcder::decode::Source; p.take_u8()?; p.skip_all() }),
+            }
+        }
+        fn nest<S: bcder::decode::Source>(which: u8, wrap: u8, c: &mut Constructed<S>) -> Result<(), bcder::decode::DecodeError<S::Error>> {
+            if wrap == 0 { leaf(which, c) } else { c.take_sequence(|k| nest(which, wrap - 1, k)) }
+        }
+        let r = catch(|| Constructed::decode(data.as_slice().into_source(), mode_of(mode), |c| nest(which, wrap, c)).is_ok());
+        (Ints::new().n(1), match r { Some(false) => Oracle::Pass, Some(true) => Oracle::Fail("value-cut-short-by-the-end-of-input-accepted".into()), None => Oracle::Fail("panic".into()) }, true)
+    });
+}
+
 pub fn run(em: &mut Emitter, rng: &mut Rng, thorough: bool) {
+    // ---- 1407: values cut short by the end of the input ----
+    {
+        let fulls: [(&[u8], &[u8]); 12] = [
+            (&[0, 20], &[0x01, 0x01, 0xff]), (&[0, 20], &[0x01, 0x02, 0xff, 0x00]), (&[1, 21], &[0x05, 0x01, 0x00]), (&[1, 21], &[0x05, 0x02, 0x00, 0x00]),
+            (&[2, 3, 4, 5, 6, 7, 8, 9, 10, 11, 12, 13, 22, 23, 24, 25, 26, 27], &[0x02, 0x01, 0x05]), (&[2, 3, 4, 5, 6, 7, 8, 9, 10, 11, 12, 13, 22, 23, 24, 25, 26, 27], &[0x02, 0x02, 0x05, 0x06]),
+            (&[3, 4, 5, 7, 8, 9, 10, 11, 12, 13, 24, 25, 26], &[0x02, 0x04, 0x01, 0x02, 0x03, 0x04]), (&[14, 15, 24, 25, 26], &[0x06, 0x03, 0x2a, 0x86, 0x48]),
+            (&[16, 17, 24, 25, 26], &[0x03, 0x03, 0x04, 0xab, 0xc0]), (&[16, 17], &[0x03, 0x01, 0x00]), (&[18, 19, 24, 25, 26, 27], &[0x04, 0x03, b'a', b'b', b'c']), (&[19], &[0x0c, 0x02, 0xc3, 0xa9]),
+        ];
+        for (whiches, full) in fulls.iter() { for &which in whiches.iter() { for mode in 0..3u8 { for wrap in 0..3u8 {
+            if mode == 1 && wrap > 0 { continue }
+            for cut in 2..full.len() { truncated_case(em, which, mode, full, cut, wrap); }
+            // the same with a tag the reader does not ask for left out: header only
+        }}}}
+        let _ = (&rng, thorough);
+    }
+
     // ---- decoding: every content of 0..2 octets x 10 accessors ----
     for ty in 0..10u8 {
         dec_case(em, ty, 0, &[]);
